@@ -76,6 +76,9 @@ def fixed_families():
     add("zero_matrix", [[0, 0], [0, 0]], [3, 4], b=[1, 0])
     add("identity", [[1, 0], [0, 1]], [3, 4])
     add("neg_eig", [[-1, 0], [1, -2]], [1, 1])
+    # irreducible cubic factor next to a rational / purely imaginary root (exactness flag with numeric croots)
+    add("cubic_plus_5", [[0, 1, 0, 0], [0, 0, 1, 0], [-1, 3, 0, 0], [0, 0, 0, 5]], [1, 0, 1, 1])
+    add("cubic_plus_rot2", [[0, 1, 0, 0, 0], [0, 0, 1, 0, 0], [-1, 3, 0, 0, 0], [0, 0, 0, 0, -2], [0, 0, 0, 2, 0]], [1, 0, 1, 1, 0])
     add("triangular_mixed", [[2, 0, 0], [1, 3, 0], [1, 1, "1/2"]], [1, 1, 1], b=[0, 1, 0])
     for p in ("0", "1", "1/2", "1/3"):
         add(f"param_walk_p={p}", [["p", 0], [1, 1]], ["1", "0"], b=["1-p", 0], point={"p": p})
